@@ -180,6 +180,10 @@ class ListObj(object):
     def copy(self):
         o = ListObj(self.items)
         o.hash_ordered = self.hash_ordered
+        o.kind = self.kind
+        for a in ("one_shot", "havoc", "havoc_items"):
+            if hasattr(self, a):
+                setattr(o, a, getattr(self, a))
         return o
 
 
@@ -458,7 +462,7 @@ class Interp(object):
             return App("truth", (v,))
         if isinstance(v, Ref):
             o = st.heap[v.id]
-            if o.kind == "list":
+            if o.kind in ("list", "set"):
                 return mk_or([g for g, _ in o.items])
             if o.kind == "map":
                 return mk_or([p for p, _ in o.entries.values()])
